@@ -341,4 +341,20 @@ ExecSMC(x, i) ==
   ELSE Raise(x, "undef")
 
 ExecIT(x, i) == [x EXCEPT !.s.cpsr = SetIT(@, i.fc * 16 + i.mask)]
+-----------------------------------------------------------------------------
+(* generic coprocessor instructions (CDP, MCR, MRC, MCRR, MRRC, LDC, STC and their "2" forms), B1.? Coproc_Accepted: *)
+(* UNDEFINED when NSACR.cp<n> denies Non-secure use or CPACR.cp<n> denies the current privilege; CPACR.cp<n> = '10'  *)
+(* is UNPREDICTABLE; an accepted instruction reaches the emulator's (documented, unimplemented) coprocessor hooks.   *)
+(* With the Virtualization Extensions, HCPTR traps are not specified here (envelope).                                *)
+CPACRcp(s, cp) == Slice(s.sys.CPACR, 2 * cp + 1, 2 * cp)
+ExecCoproc(x, i) ==
+  LET s == x.s
+      nsdeny == s.cfg.sec /\ (~IsSecure(s)) /\ Bit(s.sys.NSACR, i.cp) = 0
+      viahyp == s.cfg.virt /\ Mode(s) = HYP
+      acc    == CPACRcp(s, i.cp)
+  IN IF nsdeny THEN Raise(x, "undef")
+     ELSE IF (~viahyp) /\ (acc = 0 \/ (acc = 1 /\ Mode(s) = USR)) THEN Raise(x, "undef")
+     ELSE IF (~viahyp) /\ acc = 2 THEN Unpred(x)
+     ELSE IF s.cfg.sec /\ s.cfg.virt /\ ~IsSecure(s) THEN Unpred(NotImpl(x, "coproc-hcptr"))
+     ELSE NotImpl(x, IF i.memop THEN "coproc-mem" ELSE "coproc")
 =============================================================================
